@@ -381,9 +381,13 @@ func c02Run(c *mc.Ctx) {
 		for l := 521; l <= 1022; l++ {
 			jobs = append(jobs, job{l, 1}, job{l, 3})
 		}
+		// a GAP of 2^16 .. 2^26 bits between consecutive select samples (pattern 11), also on 32-bit builds
+		for _, l := range []int{1<<11 + 1, 1<<15 + 3, 1<<19 + 1, 1<<21 + 3} {
+			jobs = append(jobs, job{l, 11})
+		}
 		if mbits.UintSize == 64 {
 			// the top of the int32 position range: 2^25-1 and 2^25 words (64-bit builds)
-			jobs = append([]job{{1<<25 - 1, 10}, {1 << 25, 10}, {1 << 25, 9}}, jobs...) // first: they take longest
+			jobs = append([]job{{1<<25 - 1, 10}, {1 << 25, 10}, {1 << 25, 9}, {1 << 25, 11}}, jobs...) // first: they take longest
 			c.Add("bitmaps_of_2^31_bits", 2)
 		}
 		c.Par(len(jobs), func(ji int) {
